@@ -28,29 +28,700 @@ def Spec.WireRecord.wholeSecond (maxTs : Int) (r : Spec.WireRecord) : Prop :=
   r.timestampMs % 1000 = 0 ∧ 0 ≤ r.timestampMs ∧ r.timestampMs ≤ 253402300799000 ∧ r.timestampMs ≤ maxTs
     ∧ -(2 ^ 63) ≤ r.offset ∧ r.offset < 2 ^ 63
 
-/-- **C18 faithful read (partial: whole-second timestamps — known finding C18/I)** -/
-theorem readBatch_spec_partial (hfs : FloatSec) (cfg : RecCfg) (b : Spec.WireBatch) (bs : Bytes)
-    (h : Spec.batchBytes b = some bs) (hts : ∀ r ∈ b.records, r.wholeSecond b.maxTimestamp)
-    (rest : Bytes) : readBatch cfg (bs ++ rest) = .ok (b.toRec bs, rest) := by
-  sorry
+
+theorem obind_some {α β} {x : Option α} {f : α → Option β} {b : β}
+    (h : x >>= f = some b) : ∃ a, x = some a ∧ f a = some b := by
+  cases x with
+  | none => simp at h
+  | some a => exact ⟨a, rfl, h⟩
+
+/-- the integer `struct.unpack` reads from exactly these bytes -/
+def intVal (w : Nat) (signed : Bool) (a : Bytes) : Int :=
+  if signed ∧ 2 ^ (8 * w - 1) ≤ beNat a then (beNat a : Int) - 2 ^ (8 * w) else (beNat a : Int)
+
+theorem decIntN_append (w : Nat) (signed : Bool) (a rest : Bytes) (ha : a.length = w) :
+    decIntN w signed (a ++ rest) = .ok (intVal w signed a, rest) := by
+  unfold decIntN
+  rw [readExact_append' a rest (by rw [ha])]; rfl
+
+theorem intBE_enc {w : Nat} {s : Bool} {v : Int} {a : Bytes} (h : Spec.intBE w s v = some a) :
+    encIntN w s v = .ok a := by
+  have := encIntN_eq_spec w s v
+  rw [h] at this
+  cases he : encIntN w s v with
+  | error e => rw [he] at this; simp [Except.toOption] at this
+  | ok x => rw [he] at this; simp [Except.toOption] at this; rw [this]
+
+theorem intBE_lengthR {w : Nat} {s : Bool} {v : Int} {a : Bytes} (h : Spec.intBE w s v = some a) :
+    a.length = w := encIntN_length (intBE_enc h)
+
+theorem intBE_dec {w : Nat} {s : Bool} {v : Int} {a : Bytes} (h : Spec.intBE w s v = some a)
+    (hw : 0 < w) (rest : Bytes) : decIntN w s (a ++ rest) = .ok (v, rest) :=
+  int_roundtrip w hw s v a rest (intBE_enc h)
+
+theorem intBE_val {w : Nat} {s : Bool} {v : Int} {a : Bytes} (h : Spec.intBE w s v = some a)
+    (hw : 0 < w) : intVal w s a = v := by
+  have h1 := intBE_dec h hw []
+  rw [decIntN_append w s a [] (intBE_lengthR h)] at h1
+  injection h1 with h1; injection h1
+
+/-! ### `readBatch` in stages -/
+
+/-- everything after the CRC comparison -/
+def readPost (cfg : RecCfg) (baseOffset batchLength ple crc : Int) (c rest : Bytes) :
+    Except Err (RecordBatch × Bytes) := do
+  let (attributes, c) ← decIntN 2 true c
+  let (lastOffsetDelta, c) ← decIntN 4 true c
+  let (baseTimestamp, c) ← decIntN 8 true c
+  let (maxTimestamp, c) ← decIntN 8 true c
+  let (producerId, c) ← decIntN 8 true c
+  let (producerEpoch, c) ← decIntN 2 true c
+  let (baseSequence, c) ← decIntN 4 true c
+  let (numRecords, c) ← decIntN 4 true c
+  let (records, _) ← decManyR cfg baseTimestamp baseOffset maxTimestamp numRecords.toNat c
+  pure ({ baseOffset, batchLength, partitionLeaderEpoch := ple, crc, attributes, lastOffsetDelta,
+          baseTimestamp, maxTimestamp, producerId, producerEpoch, baseSequence, records }, rest)
+
+/-- everything after the batch has been cut out of the buffer -/
+def readBody (cfg : RecCfg) (baseOffset batchLength : Int) (chunk rest : Bytes) :
+    Except Err (RecordBatch × Bytes) := do
+  let (ple, c) ← decIntN 4 true chunk
+  let (magic, c) ← decIntN 1 true c
+  if magic ≠ 2 then .error .valueError else
+  let (crc, c) ← decIntN 4 false c
+  if crc ≠ (Crc.crc32c (readUpTo (batchLength - 9) c).1 : Int) then .error .valueError else
+  readPost cfg baseOffset batchLength ple crc c rest
+
+theorem readBatch_eq (cfg : RecCfg) (bs : Bytes) :
+    readBatch cfg bs = (do
+      let (baseOffset, r) ← decIntN 8 true bs
+      let (batchLength, r) ← decIntN 4 true r
+      readBody cfg baseOffset batchLength (readUpTo batchLength r).1 (readUpTo batchLength r).2) := rfl
+
+theorem readUpTo_prefix (n : Int) (r : Bytes) : r = (readUpTo n r).1 ++ (readUpTo n r).2 := by
+  unfold readUpTo
+  split <;> simp
+
+theorem intVal_one_eq_two {x : UInt8} (h : intVal 1 true [x] = 2) : x = 2 := by
+  unfold intVal at h
+  simp only [beNat, List.length_nil] at h
+  have hx : x.toNat < 256 := x.toNat_lt
+  have : x.toNat = 2 := by
+    split at h <;> omega
+  exact UInt8.toNat_inj.mp this
 
 /-- a batch is only ever returned when the magic byte is 2 -/
 theorem readBatch_magic (cfg : RecCfg) (bs : Bytes) (b : RecordBatch) (rest : Bytes)
     (h : readBatch cfg bs = .ok (b, rest)) : bs[16]? = some 2 := by
-  sorry
+  rw [readBatch_eq] at h
+  obtain ⟨⟨bo, r1⟩, h1, h⟩ := bind_ok h
+  obtain ⟨⟨bl, r2⟩, h2, h⟩ := bind_ok h
+  simp only at h
+  unfold readBody at h
+  obtain ⟨⟨ple, c1⟩, h3, h⟩ := bind_ok h
+  obtain ⟨⟨magic, c2⟩, h4, h⟩ := bind_ok h
+  simp only at h
+  split at h
+  · contradiction
+  rename_i hm
+  obtain ⟨a1, rfl, l1⟩ := decIntN_ok_iff h1
+  obtain ⟨a2, rfl, l2⟩ := decIntN_ok_iff h2
+  obtain ⟨a3, e3, l3⟩ := decIntN_ok_iff h3
+  obtain ⟨a4, rfl, l4⟩ := decIntN_ok_iff h4
+  rw [decIntN_append 1 true a4 c2 l4] at h4
+  injection h4 with h4; injection h4 with h4 _
+  have hm2 : intVal 1 true a4 = 2 := by
+    rw [h4]; exact Decidable.of_not_not hm
+  match a4, l4, hm2 with
+  | [x], _, hm2 =>
+    have hx := intVal_one_eq_two hm2
+    subst hx
+    have hp := readUpTo_prefix bl r2
+    rw [e3] at hp
+    rw [hp]
+    simp [List.getElem?_append_right, l1, l2, l3]
+
+theorem batchBytes_struct {b : Spec.WireBatch} {bs : Bytes} (h : Spec.batchBytes b = some bs) :
+    ∃ cov o len ple crc, Spec.coveredBytes b = some cov ∧ Spec.intBE 8 true b.baseOffset = some o ∧
+      Spec.intBE 4 true ((cov.length : Int) + 9) = some len ∧
+      Spec.intBE 4 true b.partitionLeaderEpoch = some ple ∧
+      Spec.intBE 4 false (Crc.crc32c cov) = some crc ∧
+      bs = o ++ len ++ ple ++ [2] ++ crc ++ cov := by
+  unfold Spec.batchBytes at h
+  obtain ⟨cov, h1, h⟩ := obind_some h
+  obtain ⟨o, h2, h⟩ := obind_some h
+  obtain ⟨len, h3, h⟩ := obind_some h
+  obtain ⟨ple, h4, h⟩ := obind_some h
+  obtain ⟨crc, h5, h⟩ := obind_some h
+  simp only [pure] at h
+  injection h with h
+  exact ⟨cov, o, len, ple, crc, h1, h2, h3, h4, h5, h.symm⟩
+
+theorem readBatch_hdr (cfg : RecCfg) (o len tail : Bytes) (ho : o.length = 8) (hl : len.length = 4) :
+    readBatch cfg (o ++ len ++ tail) =
+      readBody cfg (intVal 8 true o) (intVal 4 true len) (readUpTo (intVal 4 true len) tail).1
+        (readUpTo (intVal 4 true len) tail).2 := by
+  rw [readBatch_eq, List.append_assoc, decIntN_append 8 true o _ ho]
+  simp only [bind, Except.bind]
+  rw [decIntN_append 4 true len _ hl]
+
+theorem intVal_magic : intVal 1 true [2] = 2 := by
+  simp [intVal, beNat]
+
+theorem readBody_hdr (cfg : RecCfg) (bo bl : Int) (ple crcb c rest : Bytes) (hp : ple.length = 4)
+    (hc : crcb.length = 4) :
+    readBody cfg bo bl (ple ++ [2] ++ crcb ++ c) rest =
+      if intVal 4 false crcb ≠ (Crc.crc32c (readUpTo (bl - 9) c).1 : Int) then .error .valueError
+      else readPost cfg bo bl (intVal 4 true ple) (intVal 4 false crcb) c rest := by
+  unfold readBody
+  rw [List.append_assoc, List.append_assoc, decIntN_append 4 true ple _ hp]
+  simp only [bind, Except.bind]
+  rw [decIntN_append 1 true [2] _ rfl]
+  simp only [intVal_magic, ne_eq, not_true_eq_false, if_false]
+  rw [decIntN_append 4 false crcb _ hc]
+
+theorem readUpTo_append (a t : Bytes) (n : Int) (h : n = (a.length : Int)) :
+    readUpTo n (a ++ t) = (a, t) := by
+  subst h
+  unfold readUpTo
+  rw [if_neg (by omega)]
+  simp
+
+theorem readUpTo_all (c : Bytes) (n : Int) (h : (c.length : Int) ≤ n) : (readUpTo n c).1 = c := by
+  unfold readUpTo
+  split
+  · rfl
+  · simp only
+    apply List.take_of_length_le
+    omega
+
+/-- a complete, correctly framed batch: everything hinges on the CRC comparison -/
+theorem readBatch_framed (cfg : RecCfg) (o len ple crcb cov rest : Bytes) (ho : o.length = 8)
+    (hl : len.length = 4) (hp : ple.length = 4) (hc : crcb.length = 4)
+    (hbl : intVal 4 true len = (cov.length : Int) + 9) :
+    readBatch cfg (o ++ len ++ ple ++ [2] ++ crcb ++ cov ++ rest) =
+      if intVal 4 false crcb ≠ (Crc.crc32c cov : Int) then .error .valueError
+      else readPost cfg (intVal 8 true o) ((cov.length : Int) + 9) (intVal 4 true ple)
+        (intVal 4 false crcb) cov rest := by
+  have e : o ++ len ++ ple ++ [2] ++ crcb ++ cov ++ rest
+      = o ++ len ++ ((ple ++ [2] ++ crcb ++ cov) ++ rest) := by simp
+  rw [e, readBatch_hdr cfg o len _ ho hl, hbl,
+    readUpTo_append _ _ _ (by simp [hp, hc]; omega)]
+  simp only
+  rw [readBody_hdr cfg _ _ ple crcb cov rest hp hc, readUpTo_all _ _ (by omega)]
+
+theorem beNat_inj {a b : Bytes} (hl : a.length = b.length) (h : beNat a = beNat b) : a = b := by
+  rw [← natBE_beNat a, ← natBE_beNat b, hl, h]
+
+theorem intVal_unsigned (w : Nat) (a : Bytes) : intVal w false a = (beNat a : Int) := by
+  simp [intVal]
+
+/-- corruption, sharpened: the failure is the `ValueError` of the CRC comparison -/
+theorem readBatch_byte_corruption_valueError (cfg : RecCfg) (b : Spec.WireBatch) (bs : Bytes)
+    (h : Spec.batchBytes b = some bs) (i : Nat) (h17 : 17 ≤ i) (hi : i < bs.length)
+    (x : UInt8) (hx : x ≠ bs[i]) (rest : Bytes) :
+    readBatch cfg (bs.set i x ++ rest) = .error .valueError := by
+  have hx' : bs[i]? ≠ some x := by
+    rw [List.getElem?_eq_getElem hi]; intro hh; injection hh with hh; exact hx hh.symm
+  clear hx
+  obtain ⟨cov, o, len, ple, crc, hcov, ho, hlen, hple, hcrc, rfl⟩ := batchBytes_struct h
+  have lo := intBE_lengthR ho
+  have ll := intBE_lengthR hlen
+  have lp := intBE_lengthR hple
+  have lc := intBE_lengthR hcrc
+  have vlen := intBE_val hlen (by omega)
+  have vcrc := intBE_val hcrc (by omega)
+  rw [intVal_unsigned] at vcrc
+  have e : o ++ len ++ ple ++ [2] ++ crc ++ cov = (o ++ len ++ ple ++ [2]) ++ (crc ++ cov) := by simp
+  have lh : (o ++ len ++ ple ++ [2]).length = 17 := by simp [lo, ll, lp]
+  rw [e] at hx' hi ⊢
+  rw [List.getElem?_append_right (by omega), lh] at hx'
+  rw [List.set_append, if_neg (by omega), lh, List.set_append]
+  simp only [List.length_append, lh] at hi
+  split
+  · -- the stored CRC changes
+    rename_i hj
+    rw [List.getElem?_append_left hj] at hx'
+    have e2 : o ++ len ++ ple ++ [2] ++ (crc.set (i - 17) x ++ cov) ++ rest
+        = o ++ len ++ ple ++ [2] ++ crc.set (i - 17) x ++ cov ++ rest := by simp
+    rw [e2, readBatch_framed cfg o len ple _ cov rest lo ll lp (by simp [lc]) vlen, if_pos]
+    rw [intVal_unsigned, ← vcrc]
+    intro hc
+    have hc' : beNat (crc.set (i - 17) x) = beNat crc := by omega
+    have := beNat_inj (by simp) hc'
+    apply hx'
+    rw [← this, List.getElem?_set]
+    simp [hj]
+  · -- the checksummed region changes
+    rename_i hj
+    rw [List.getElem?_append_right (by omega)] at hx'
+    have hj' : i - 17 - crc.length < cov.length := by omega
+    have e2 : o ++ len ++ ple ++ [2] ++ (crc ++ cov.set (i - 17 - crc.length) x) ++ rest
+        = o ++ len ++ ple ++ [2] ++ crc ++ cov.set (i - 17 - crc.length) x ++ rest := by simp
+    rw [e2, readBatch_framed cfg o len ple crc _ rest lo ll lp lc (by simpa using vlen), if_pos]
+    rw [intVal_unsigned, vcrc]
+    have hne : cov[i - 17 - crc.length] ≠ x := by
+      intro hh; apply hx'; rw [List.getElem?_eq_getElem hj', hh]
+    have hcov1 : cov = cov.take (i - 17 - crc.length)
+        ++ cov[i - 17 - crc.length] :: cov.drop (i - 17 - crc.length + 1) := by
+      rw [List.getElem_cons_drop, List.take_append_drop]
+    have := Crc.crc32c_byte_change (cov.take (i - 17 - crc.length))
+      (cov.drop (i - 17 - crc.length + 1)) _ _ hne
+    rw [← hcov1] at this
+    rw [List.set_eq_take_append_cons_drop, if_pos hj']
+    omega
+
+/-! ### signed varints, nullable bytes, headers -/
+
+theorem svar_enc {bits : Nat} {v : Int} {x : Bytes} (h : Spec.svar bits v = some x) :
+    -(2 ^ (bits - 1)) ≤ v ∧ v < 2 ^ (bits - 1) ∧ x = encVarint (zigzagEnc v) := by
+  unfold Spec.svar at h
+  split at h
+  · rename_i hc
+    injection h with h
+    refine ⟨hc.1, hc.2, ?_⟩
+    rw [encVarint_eq_spec, ← h]; rfl
+  · contradiction
+
+theorem svar32_dec {v : Int} {x : Bytes} (h : Spec.svar 32 v = some x) (rest : Bytes) :
+    decSignedVarint (x ++ rest) = .ok (v, rest) := by
+  obtain ⟨h1, h2, rfl⟩ := svar_enc h
+  have hz := zigzag_range 31 v ⟨h1, h2⟩
+  unfold decSignedVarint
+  rw [varint_roundtrip 4 _ (Nat.lt_trans hz (by decide))]
+  simp [bind, Except.bind, pure, Except.pure, zigzag_dec_enc]
+
+theorem svar64_dec {v : Int} {x : Bytes} (h : Spec.svar 64 v = some x) (rest : Bytes) :
+    decSignedVarlong (x ++ rest) = .ok (v, rest) := by
+  obtain ⟨h1, h2, rfl⟩ := svar_enc h
+  have hz := zigzag_range 63 v ⟨h1, h2⟩
+  unfold decSignedVarlong
+  rw [varint_roundtrip 9 _ (Nat.lt_trans hz (by decide))]
+  simp [bind, Except.bind, pure, Except.pure, zigzag_dec_enc]
+
+theorem readChunk_append (cfg : RecCfg) (a t : Bytes) (n : Int) (h : n = (a.length : Int)) :
+    readChunk cfg n (a ++ t) = .ok (a, t) := by
+  unfold readChunk
+  split
+  · exact readExact_append' a t h
+  · rw [readUpTo_append a t n h]
+
+theorem nbytes_dec (cfg : RecCfg) {o : Option Bytes} {x : Bytes} (h : Spec.nbytes o = some x)
+    (rest : Bytes) : readSignedCompactBytes cfg (x ++ rest) = .ok (o, rest) := by
+  unfold readSignedCompactBytes
+  cases o with
+  | none =>
+    simp only [Spec.nbytes] at h
+    rw [svar32_dec h]
+    rfl
+  | some b =>
+    simp only [Spec.nbytes, Option.map_eq_some_iff] at h
+    obtain ⟨l, hl, rfl⟩ := h
+    rw [List.append_assoc, svar32_dec hl]
+    simp only [bind, Except.bind]
+    rw [if_neg (by omega), if_neg (by omega), readChunk_append cfg b rest _ rfl]
+    rfl
+
+theorem header_dec (cfg : RecCfg) {hd : Spec.WireHeader} {x : Bytes}
+    (h : Spec.headerBytes hd = some x) (rest : Bytes) :
+    readRecHeader cfg (x ++ rest) = .ok (hd.toRec, rest) := by
+  unfold Spec.headerBytes at h
+  obtain ⟨k, hk, h⟩ := obind_some h
+  obtain ⟨v, hv, h⟩ := obind_some h
+  simp only [pure] at h
+  injection h with h; subst h
+  unfold readRecHeader
+  rw [List.append_assoc, nbytes_dec cfg hk]
+  simp only [bind, Except.bind]
+  rw [nbytes_dec cfg hv]
+  rfl
+
+theorem headers_dec (cfg : RecCfg) (hs : List Spec.WireHeader) {x : Bytes}
+    (h : Spec.catOpt Spec.headerBytes hs = some x) (rest : Bytes) :
+    decManyH cfg hs.length (x ++ rest) = .ok (hs.map Spec.WireHeader.toRec, rest) := by
+  induction hs generalizing x with
+  | nil =>
+    simp only [Spec.catOpt] at h
+    injection h with h; subst h
+    rfl
+  | cons hd hs ih =>
+    simp only [Spec.catOpt] at h
+    obtain ⟨a, ha, h⟩ := obind_some h
+    obtain ⟨b, hb, h⟩ := obind_some h
+    simp only [pure] at h
+    injection h with h; subst h
+    simp only [List.length_cons, decManyH, List.map_cons]
+    rw [List.append_assoc, header_dec cfg ha]
+    simp only [bind, Except.bind]
+    rw [ih hb]
+    rfl
+
+theorem recordTimestamp_whole (hfs : FloatSec) (ts : Int) (h1 : ts % 1000 = 0) (h2 : 0 ≤ ts)
+    (h3 : ts ≤ 253402300799000) : recordTimestamp ts = .ok (ts * 1000) := by
+  have hS := hfs (ts / 1000) (by omega) (by omega)
+  rw [show ts / 1000 * 1000 = ts by omega] at hS
+  unfold recordTimestamp
+  rw [hS]
+  have hc : ¬ (ts / 1000 < minDatetimeSec ∨ maxDatetimeSec < ts / 1000) := by
+    unfold minDatetimeSec maxDatetimeSec; omega
+  simp only
+  rw [if_neg hc, if_neg (by omega)]
+  congr 1
+  omega
+
+/-- the pieces of a reference-encoded record -/
+theorem recordBytes_struct {baseTs baseOff : Int} {r : Spec.WireRecord} {x : Bytes}
+    (h : Spec.recordBytes baseTs baseOff r = some x) :
+    ∃ a t o k v n hs l, Spec.intBE 1 true r.attributes = some a ∧
+      Spec.svar 64 (r.timestampMs - baseTs) = some t ∧ Spec.svar 32 (r.offset - baseOff) = some o ∧
+      Spec.nbytes r.key = some k ∧ Spec.nbytes r.value = some v ∧
+      Spec.svar 32 r.headers.length = some n ∧ Spec.catOpt Spec.headerBytes r.headers = some hs ∧
+      Spec.svar 32 ((a ++ t ++ o ++ k ++ v ++ n ++ hs).length) = some l ∧
+      x = l ++ (a ++ t ++ o ++ k ++ v ++ n ++ hs) := by
+  unfold Spec.recordBytes at h
+  obtain ⟨a, ha, h⟩ := obind_some h
+  obtain ⟨t, ht, h⟩ := obind_some h
+  obtain ⟨o, ho, h⟩ := obind_some h
+  obtain ⟨k, hk, h⟩ := obind_some h
+  obtain ⟨v, hv, h⟩ := obind_some h
+  obtain ⟨n, hn, h⟩ := obind_some h
+  obtain ⟨hs, hhs, h⟩ := obind_some h
+  obtain ⟨l, hl, h⟩ := obind_some h
+  simp only [pure] at h
+  injection h with h
+  exact ⟨a, t, o, k, v, n, hs, l, ha, ht, ho, hk, hv, hn, hhs, hl, h.symm⟩
+
+theorem record_dec (hfs : FloatSec) (cfg : RecCfg) (baseTs baseOff maxTs : Int)
+    (r : Spec.WireRecord) (x : Bytes) (h : Spec.recordBytes baseTs baseOff r = some x)
+    (hw : r.wholeSecond maxTs) (tail : Bytes) :
+    readRecord cfg baseTs baseOff (x ++ tail) = .ok (r.toRec, tail) := by
+  obtain ⟨a, t, o, k, v, n, hs, l, ha, ht, ho, hk, hv, hn, hhs, hl, rfl⟩ := recordBytes_struct h
+  obtain ⟨hw1, hw2, hw3, hw4, hw5, hw6⟩ := hw
+  unfold readRecord
+  rw [List.append_assoc, svar32_dec hl]
+  simp only [bind, Except.bind]
+  rw [readChunk_append cfg _ tail _ rfl]
+  simp only
+  rw [show a ++ t ++ o ++ k ++ v ++ n ++ hs = a ++ (t ++ (o ++ (k ++ (v ++ (n ++ (hs ++ [])))))) by simp,
+    intBE_dec ha (by omega)]
+  simp only
+  rw [svar64_dec ht]
+  simp only
+  rw [show baseTs + (r.timestampMs - baseTs) = r.timestampMs by omega,
+    recordTimestamp_whole hfs _ hw1 hw2 hw3]
+  simp only
+  rw [svar32_dec ho]
+  simp only
+  rw [show baseOff + (r.offset - baseOff) = r.offset by omega, if_neg (by omega)]
+  rw [nbytes_dec cfg hk]
+  simp only
+  rw [nbytes_dec cfg hv]
+  simp only
+  rw [svar32_dec hn]
+  simp only [Int.toNat_natCast]
+  rw [headers_dec cfg _ hhs]
+  simp [pure, Except.pure, Spec.WireRecord.toRec]
+
+theorem records_dec (hfs : FloatSec) (cfg : RecCfg) (baseTs baseOff maxTs : Int)
+    (rs : List Spec.WireRecord) (x : Bytes)
+    (h : Spec.catOpt (Spec.recordBytes baseTs baseOff) rs = some x)
+    (hw : ∀ r ∈ rs, r.wholeSecond maxTs) (tail : Bytes) :
+    decManyR cfg baseTs baseOff maxTs rs.length (x ++ tail)
+      = .ok (rs.map Spec.WireRecord.toRec, tail) := by
+  induction rs generalizing x with
+  | nil =>
+    simp only [Spec.catOpt] at h
+    injection h with h; subst h
+    rfl
+  | cons r rs ih =>
+    simp only [Spec.catOpt] at h
+    obtain ⟨a, ha, h⟩ := obind_some h
+    obtain ⟨b, hb, h⟩ := obind_some h
+    simp only [pure] at h
+    injection h with h; subst h
+    have hwr := hw r (by simp)
+    simp only [List.length_cons, decManyR, List.map_cons]
+    rw [List.append_assoc, record_dec hfs cfg baseTs baseOff maxTs r a ha hwr]
+    simp only [bind, Except.bind]
+    obtain ⟨hw1, hw2, hw3, hw4, hw5, hw6⟩ := hwr
+    rw [if_neg (by simp only [Spec.WireRecord.toRec]; omega),
+      ih b hb (fun r' hr' => hw r' (by simp [hr']))]
+    rfl
+
+theorem coveredBytes_struct {b : Spec.WireBatch} {cov : Bytes} (h : Spec.coveredBytes b = some cov) :
+    ∃ a l t0 t1 p e s n rs, Spec.intBE 2 true b.attributes = some a ∧
+      Spec.intBE 4 true b.lastOffsetDelta = some l ∧ Spec.intBE 8 true b.baseTimestamp = some t0 ∧
+      Spec.intBE 8 true b.maxTimestamp = some t1 ∧ Spec.intBE 8 true b.producerId = some p ∧
+      Spec.intBE 2 true b.producerEpoch = some e ∧ Spec.intBE 4 true b.baseSequence = some s ∧
+      Spec.intBE 4 true b.records.length = some n ∧
+      Spec.catOpt (Spec.recordBytes b.baseTimestamp b.baseOffset) b.records = some rs ∧
+      cov = a ++ (l ++ (t0 ++ (t1 ++ (p ++ (e ++ (s ++ (n ++ rs))))))) := by
+  unfold Spec.coveredBytes at h
+  obtain ⟨a, ha, h⟩ := obind_some h
+  obtain ⟨l, hl, h⟩ := obind_some h
+  obtain ⟨t0, ht0, h⟩ := obind_some h
+  obtain ⟨t1, ht1, h⟩ := obind_some h
+  obtain ⟨p, hp, h⟩ := obind_some h
+  obtain ⟨e, he, h⟩ := obind_some h
+  obtain ⟨s, hs, h⟩ := obind_some h
+  obtain ⟨n, hn, h⟩ := obind_some h
+  obtain ⟨rs, hrs, h⟩ := obind_some h
+  simp only [pure] at h
+  injection h with h
+  exact ⟨a, l, t0, t1, p, e, s, n, rs, ha, hl, ht0, ht1, hp, he, hs, hn, hrs, by rw [← h]; simp⟩
+
+/-- **C18 faithful read (partial: whole-second timestamps — known finding C18/I)** -/
+theorem readBatch_spec_partial (hfs : FloatSec) (cfg : RecCfg) (b : Spec.WireBatch) (bs : Bytes)
+    (h : Spec.batchBytes b = some bs) (hts : ∀ r ∈ b.records, r.wholeSecond b.maxTimestamp)
+    (rest : Bytes) : readBatch cfg (bs ++ rest) = .ok (b.toRec bs, rest) := by
+  obtain ⟨cov, o, len, ple, crc, hcov, ho, hlen, hple, hcrc, rfl⟩ := batchBytes_struct h
+  have lo := intBE_lengthR ho
+  have ll := intBE_lengthR hlen
+  have lp := intBE_lengthR hple
+  have lc := intBE_lengthR hcrc
+  rw [readBatch_framed cfg o len ple crc cov rest lo ll lp lc (intBE_val hlen (by omega)),
+    intBE_val hcrc (by omega), if_neg (by simp), intBE_val ho (by omega), intBE_val hple (by omega)]
+  have hdrop : (o ++ len ++ ple ++ [2] ++ crc ++ cov).drop 21 = cov := by
+    have e : o ++ len ++ ple ++ [2] ++ crc ++ cov = (o ++ len ++ ple ++ [2] ++ crc) ++ cov := by simp
+    rw [e, List.drop_append_of_le_length (by simp [lo, ll, lp, lc])]
+    rw [List.drop_of_length_le (by simp [lo, ll, lp, lc])]
+    rfl
+  have hlen' : (((o ++ len ++ ple ++ [2] ++ crc ++ cov).length : Nat) : Int) - 12
+      = (cov.length : Int) + 9 := by
+    simp [lo, ll, lp, lc]; omega
+  unfold Spec.WireBatch.toRec
+  rw [hdrop, hlen']
+  obtain ⟨a, l, t0, t1, p, e, s, n, rs, ha, hl, ht0, ht1, hp, he, hs, hn, hrs, hc⟩ :=
+    coveredBytes_struct hcov
+  generalize (cov.length : Int) + 9 = bl
+  generalize Crc.crc32c cov = cv
+  subst hc
+  unfold readPost
+  rw [intBE_dec ha (by omega)]
+  simp only [bind, Except.bind]
+  rw [intBE_dec hl (by omega)]
+  simp only
+  rw [intBE_dec ht0 (by omega)]
+  simp only
+  rw [intBE_dec ht1 (by omega)]
+  simp only
+  rw [intBE_dec hp (by omega)]
+  simp only
+  rw [intBE_dec he (by omega)]
+  simp only
+  rw [intBE_dec hs (by omega)]
+  simp only
+  rw [intBE_dec hn (by omega)]
+  simp only [Int.toNat_natCast]
+  have := records_dec hfs cfg b.baseTimestamp b.baseOffset b.maxTimestamp b.records rs hrs hts []
+  rw [List.append_nil] at this
+  rw [this]
+  rfl
+
+/-! ### truncation: a read that succeeds on a prefix agrees with the read of the whole -/
+
+theorem decIntN_step {w : Nat} {s : Bool} {c D a T : Bytes} {v : Int} {r : Bytes}
+    (h : decIntN w s c = .ok (v, r)) (hfull : c ++ D = a ++ T) (ha : a.length = w) :
+    v = intVal w s a ∧ r ++ D = T := by
+  obtain ⟨a', rfl, la'⟩ := decIntN_ok_iff h
+  rw [List.append_assoc] at hfull
+  obtain ⟨rfl, h2⟩ := List.append_inj hfull (by omega)
+  rw [decIntN_append w s a' r la'] at h
+  injection h with h; injection h with h _
+  exact ⟨h.symm, h2⟩
+
+theorem decVarint_ext {k : Nat} {c : Bytes} {n : Nat} {r : Bytes} (D : Bytes)
+    (h : decVarint k c = .ok (n, r)) : decVarint k (c ++ D) = .ok (n, r ++ D) := by
+  induction k generalizing c n r with
+  | zero => simp [decVarint] at h
+  | succ k ih =>
+    cases c with
+    | nil => simp [decVarint] at h
+    | cons b c =>
+      simp only [decVarint, List.cons_append] at h ⊢
+      split at h
+      · rename_i hb
+        rw [if_pos hb]
+        injection h with h; injection h with h1 h2; subst h1 h2; rfl
+      · rename_i hb
+        rw [if_neg hb]
+        split at h
+        · rename_i hi r' heq
+          rw [ih heq]
+          injection h with h; injection h with h1 h2; subst h1 h2; rfl
+        · contradiction
+
+theorem svar32_step {c D x T : Bytes} {v0 v : Int} {r : Bytes}
+    (h : decSignedVarint c = .ok (v, r)) (hfull : c ++ D = x ++ T)
+    (hx : Spec.svar 32 v0 = some x) : v = v0 ∧ r ++ D = T := by
+  unfold decSignedVarint at h
+  obtain ⟨⟨n, r'⟩, h1, h2⟩ := bind_ok h
+  simp only [pure, Except.pure] at h2
+  injection h2 with h2; injection h2 with h2 h3; subst h2 h3
+  have h4 := decVarint_ext D h1
+  rw [hfull] at h4
+  have h5 := svar32_dec hx T
+  unfold decSignedVarint at h5
+  rw [h4] at h5
+  simp only [bind, Except.bind, pure, Except.pure] at h5
+  injection h5 with h5; injection h5 with h5 h6
+  exact ⟨h5, h6⟩
+
+/-- the bytes `read_record` leaves behind are those after the length-prefixed chunk -/
+theorem readRecord_rest {bt bo : Int} {c : Bytes} {rec : Record} {c' : Bytes}
+    (h : readRecord RecCfg.repaired bt bo c = .ok (rec, c')) :
+    ∃ len r bd, decSignedVarint c = .ok (len, r) ∧ readExact len r = .ok (bd, c') := by
+  unfold readRecord at h
+  obtain ⟨⟨len, r⟩, h1, h⟩ := bind_ok h
+  obtain ⟨⟨bd, rest⟩, h2, h⟩ := bind_ok h
+  refine ⟨len, r, bd, h1, ?_⟩
+  have h2' : readExact len r = .ok (bd, rest) := h2
+  rw [h2']
+  obtain ⟨⟨attrs, b1⟩, _, h⟩ := bind_ok h
+  obtain ⟨⟨tsd, b2⟩, _, h⟩ := bind_ok h
+  obtain ⟨ts, _, h⟩ := bind_ok h
+  obtain ⟨⟨od, b3⟩, _, h⟩ := bind_ok h
+  simp only at h
+  split at h
+  · contradiction
+  obtain ⟨⟨k, b4⟩, _, h⟩ := bind_ok h
+  obtain ⟨⟨v, b5⟩, _, h⟩ := bind_ok h
+  obtain ⟨⟨nh, b6⟩, _, h⟩ := bind_ok h
+  obtain ⟨⟨hs, b7⟩, _, h⟩ := bind_ok h
+  simp only at h
+  split at h
+  · contradiction
+  simp only [pure, Except.pure] at h
+  injection h with h; injection h with _ h
+  rw [h]
+
+theorem readRecord_step {bt bo bt' bo' : Int} {r0 : Spec.WireRecord} {x c D T : Bytes}
+    {rec : Record} {c' : Bytes} (h : readRecord RecCfg.repaired bt bo c = .ok (rec, c'))
+    (hx : Spec.recordBytes bt' bo' r0 = some x) (hfull : c ++ D = x ++ T) : c' ++ D = T := by
+  obtain ⟨a, t, o, k, v, n, hs, l, -, -, -, -, -, -, -, hl, rfl⟩ := recordBytes_struct hx
+  obtain ⟨len, r, bd, h1, h2⟩ := readRecord_rest h
+  rw [List.append_assoc] at hfull
+  obtain ⟨rfl, h3⟩ := svar32_step h1 hfull hl
+  obtain ⟨rfl, h4⟩ := readExact_ok h2
+  rw [List.append_assoc] at h3
+  exact (List.append_inj h3 (by omega)).2
+
+theorem decManyR_step {bt bo mt bt' bo' : Int} (rs : List Spec.WireRecord) {x c D T : Bytes}
+    {out : List Record} {left : Bytes}
+    (h : decManyR RecCfg.repaired bt bo mt rs.length c = .ok (out, left))
+    (hx : Spec.catOpt (Spec.recordBytes bt' bo') rs = some x) (hfull : c ++ D = x ++ T) :
+    left ++ D = T := by
+  induction rs generalizing x c out with
+  | nil =>
+    simp only [Spec.catOpt] at hx
+    injection hx with hx; subst hx
+    simp only [List.length_nil, decManyR] at h
+    injection h with h; injection h with _ h
+    subst h
+    simpa using hfull
+  | cons r rs ih =>
+    simp only [Spec.catOpt] at hx
+    obtain ⟨a, ha, hx⟩ := obind_some hx
+    obtain ⟨b, hb, hx⟩ := obind_some hx
+    simp only [pure] at hx
+    injection hx with hx; subst hx
+    simp only [List.length_cons, decManyR] at h
+    obtain ⟨⟨rec, c1⟩, h1, h⟩ := bind_ok h
+    simp only at h
+    split at h
+    · contradiction
+    obtain ⟨⟨out', left'⟩, h2, h⟩ := bind_ok h
+    simp only [pure, Except.pure] at h
+    injection h with h; injection h with _ h; subst h
+    rw [List.append_assoc] at hfull
+    exact ih h2 hb (readRecord_step h1 ha hfull)
+
+theorem readUpTo_short (r : Bytes) (n : Int) (h : (r.length : Int) ≤ n) : readUpTo n r = (r, []) := by
+  unfold readUpTo
+  rw [if_neg (by omega), List.take_of_length_le (by omega), List.drop_of_length_le (by omega)]
+
+theorem readBatch_truncation_not_ok (b : Spec.WireBatch) (bs : Bytes)
+    (h : Spec.batchBytes b = some bs) (k : Nat) (hk : k < bs.length) (out : RecordBatch × Bytes) :
+    readBatch RecCfg.repaired (bs.take k) ≠ .ok out := by
+  intro hr
+  have hD : 0 < (bs.drop k).length := by simp; omega
+  have hfull : bs.take k ++ bs.drop k = bs := List.take_append_drop k bs
+  generalize bs.take k = c0 at hr hfull
+  generalize bs.drop k = D at hD hfull
+  obtain ⟨cov, o, len, ple, crc, hcov, ho, hlen, hple, hcrc, rfl⟩ := batchBytes_struct h
+  obtain ⟨a, l, t0, t1, p, e, s, n, rs, ha, hl, ht0, ht1, hp, he, hs, hn, hrs, rfl⟩ :=
+    coveredBytes_struct hcov
+  have lp := intBE_lengthR hple
+  have lc := intBE_lengthR hcrc
+  rw [readBatch_eq] at hr
+  obtain ⟨⟨bo, r1⟩, h1, hr⟩ := bind_ok hr
+  obtain ⟨⟨bl, r2⟩, h2, hr⟩ := bind_ok hr
+  simp only at hr
+  simp only [List.append_assoc] at hfull
+  obtain ⟨rfl, f1⟩ := decIntN_step h1 hfull (intBE_lengthR ho)
+  obtain ⟨rfl, f2⟩ := decIntN_step h2 f1 (intBE_lengthR hlen)
+  rw [intBE_val hlen (by omega)] at hr
+  rw [intBE_val ho (by omega)] at hr
+  have hlen2 : (r2.length : Int) ≤
+      ((a ++ (l ++ (t0 ++ (t1 ++ (p ++ (e ++ (s ++ (n ++ rs)))))))).length : Int) + 9 := by
+    have := congrArg List.length f2
+    simp only [List.length_append, List.length_cons, List.length_nil] at this ⊢
+    omega
+  rw [readUpTo_short r2 _ hlen2] at hr
+  simp only at hr
+  generalize ((a ++ (l ++ (t0 ++ (t1 ++ (p ++ (e ++ (s ++ (n ++ rs)))))))).length : Int) + 9 = bl at hr
+  unfold readBody at hr
+  obtain ⟨⟨pl, c1⟩, h3, hr⟩ := bind_ok hr
+  obtain ⟨⟨mg, c2⟩, h4, hr⟩ := bind_ok hr
+  simp only at hr
+  split at hr
+  · cases hr
+  obtain ⟨⟨cr, c3⟩, h5, hr⟩ := bind_ok hr
+  simp only at hr
+  split at hr
+  · cases hr
+  obtain ⟨-, f3⟩ := decIntN_step h3 f2 lp
+  obtain ⟨-, f4⟩ := decIntN_step (a := [2]) h4 f3 rfl
+  obtain ⟨-, f5⟩ := decIntN_step h5 f4 lc
+  unfold readPost at hr
+  obtain ⟨⟨v1, d1⟩, g1, hr⟩ := bind_ok hr
+  obtain ⟨⟨v2, d2⟩, g2, hr⟩ := bind_ok hr
+  obtain ⟨⟨v3, d3⟩, g3, hr⟩ := bind_ok hr
+  obtain ⟨⟨v4, d4⟩, g4, hr⟩ := bind_ok hr
+  obtain ⟨⟨v5, d5⟩, g5, hr⟩ := bind_ok hr
+  obtain ⟨⟨v6, d6⟩, g6, hr⟩ := bind_ok hr
+  obtain ⟨⟨v7, d7⟩, g7, hr⟩ := bind_ok hr
+  obtain ⟨⟨v8, d8⟩, g8, hr⟩ := bind_ok hr
+  obtain ⟨⟨recs, left⟩, g9, hr⟩ := bind_ok hr
+  obtain ⟨-, e1⟩ := decIntN_step g1 f5 (intBE_lengthR ha)
+  obtain ⟨-, e2⟩ := decIntN_step g2 e1 (intBE_lengthR hl)
+  obtain ⟨-, e3⟩ := decIntN_step g3 e2 (intBE_lengthR ht0)
+  obtain ⟨-, e4⟩ := decIntN_step g4 e3 (intBE_lengthR ht1)
+  obtain ⟨-, e5⟩ := decIntN_step g5 e4 (intBE_lengthR hp)
+  obtain ⟨-, e6⟩ := decIntN_step g6 e5 (intBE_lengthR he)
+  obtain ⟨-, e7⟩ := decIntN_step g7 e6 (intBE_lengthR hs)
+  obtain ⟨rfl, e8⟩ := decIntN_step g8 e7 (intBE_lengthR hn)
+  rw [intBE_val hn (by omega)] at g9
+  simp only [Int.toNat_natCast] at g9
+  have e9 := decManyR_step b.records (T := []) g9 hrs (by simpa using e8)
+  have : D = [] := (List.append_eq_nil_iff.mp e9).2
+  subst this
+  simp at hD
 
 /-- **corruption**: changing any single byte from the CRC field (offset 17) to the end of a
     reference-encoded batch makes `read_batch` fail -/
 theorem readBatch_byte_corruption (cfg : RecCfg) (b : Spec.WireBatch) (bs : Bytes)
     (h : Spec.batchBytes b = some bs) (i : Nat) (h17 : 17 ≤ i) (hi : i < bs.length)
     (x : UInt8) (hx : x ≠ bs[i]) (rest : Bytes) :
-    ∃ e, readBatch cfg (bs.set i x ++ rest) = .error e := by
-  sorry
+    ∃ e, readBatch cfg (bs.set i x ++ rest) = .error e :=
+  ⟨.valueError, readBatch_byte_corruption_valueError cfg b bs h i h17 hi x hx rest⟩
 
 /-- **truncation**: every strict prefix of a reference-encoded batch makes `read_batch` fail
     (needs the exact inner reads of the repaired reader) -/
 theorem readBatch_truncation (b : Spec.WireBatch) (bs : Bytes) (h : Spec.batchBytes b = some bs)
     (k : Nat) (hk : k < bs.length) : ∃ e, readBatch RecCfg.repaired (bs.take k) = .error e := by
-  sorry
+  cases hres : readBatch RecCfg.repaired (bs.take k) with
+  | error e => exact ⟨e, rfl⟩
+  | ok out => exact absurd hres (readBatch_truncation_not_ok b bs h k hk out)
 
 end Kio
